@@ -3037,3 +3037,60 @@ Q(name="e2_decrypt_packet_body_authentic_first", props=["C04", "C03"], func=r"^d
   functions=["packet_crypto::decrypt_packet_body"], pre=dpb_pre, post=dpa_post,
   bounds="every header and key state, every verdict of the AEAD (opaque): a connection-fatal transport error (reserved bits, illegal key update) and an accepted packet number are returned only on paths on which PacketKey::decrypt was called and succeeded - a forged or corrupted packet is dropped without effect, whatever its header bits say",
   replay=("conn_unauthentic_packet_inert_native", lambda m: [dict(first=0x48), dict(first=0x50), dict(first=0x58), dict(first=0x40)]))
+
+
+# ------------------------------------------------------------------ C03: no peer-reported ack delay makes the RTT estimator panic (Duration arithmetic panics on underflow in every build profile)
+def _dur(c, st, k):
+    return c.ex.read_key(st, k + ".0", BV64).t, c.ex.read_key(st, k + ".1.0", ("bv", 32, False)).t
+
+
+def _dge(a, b):
+    return or_("(bvugt %s %s)" % (a[0], b[0]), and_(eq(a[0], b[0]), "(bvuge %s %s)" % (a[1], b[1])))
+
+
+def ru_assume(c, p):
+    st = p.p.state
+    out = ["true"]
+    small = lambda d: "(bvult %s (_ bv1125899906842624 64))" % d[0]          # < 2^50 s
+    # fields of `self` as they were at the time of the call (still input values then), locals / call results as they are
+    rd = lambda snap, k: _dur(c, snap if k.startswith("*") else st, k)
+    for x in st.calls:
+        if re.search(r"<Duration as Ord>::(min|max)$", x[0]) and x[1][0][0] == "agg" and x[1][1][0] == "agg":
+            snap = _Snap(st, x[3]) if x[3] is not None else st
+            a, b, r = rd(snap, _k(x[1][0][1])), rd(snap, _k(x[1][1][1])), _dur(c, st, x[2])
+            lo = x[0].endswith("min")
+            out += [or_(and_(eq(r[0], a[0]), eq(r[1], a[1])), and_(eq(r[0], b[0]), eq(r[1], b[1]))), _dge(a, r) if lo else _dge(r, a), _dge(b, r) if lo else _dge(r, b)]
+            continue
+        m = re.search(r"Duration::checked_(sub|add|mul|div)$", x[0])
+        if not m or x[1][0][0] != "agg":
+            continue
+        snap = _Snap(st, x[3]) if x[3] is not None else st
+        a = rd(snap, _k(x[1][0][1]))
+        r = x[2]
+        some = eq(c.ex.read_key(st, r + "#discr", I64).t, bv(1))
+        rv = _dur(c, st, r + "@Some.0")
+        nanos_ok = "(bvult %s (_ bv1000000000 32))" % rv[1]
+        if m.group(1) == "sub":
+            b = rd(snap, _k(x[1][1][1]))
+            out += [eq(some, _dge(a, b)), or_(not_(some), and_(_dge(a, rv), nanos_ok))]
+        elif m.group(1) == "add":
+            b = rd(snap, _k(x[1][1][1]))
+            out += [or_(not_(and_(small(a), small(b))), some), or_(not_(some), and_(_dge(rv, a), _dge(rv, b), nanos_ok, "(bvule %s (bvadd %s %s (_ bv1 64)))" % (rv[0], a[0], b[0])))]
+        elif m.group(1) == "mul":
+            out += [or_(not_(small(a)), some), or_(not_(some), and_(nanos_ok, "(bvule %s (bvadd (bvmul %s (_ bv8 64)) (_ bv8 64)))" % (rv[0], a[0])))]
+        else:
+            out += [some, _dge(a, rv), nanos_ok]
+    return and_(*out)
+
+
+def ru_pre(c):
+    lim = lambda k: and_("(bvult %s (_ bv4294967296 64))" % c.inp(k + ".0", BV64), "(bvult %s (_ bv1000000000 32))" % c.inp(k + ".1.0", ("bv", 32, False)))
+    f = lambda n: "*_1.%d" % c.field("connection/paths.rs", "RttEstimator", n)
+    return and_(lim("_2"), lim("_3"), lim(f("latest")), lim(f("var")), lim(f("min")), lim(f("smoothed") + "@Some.0"), ule(c.inp(f("smoothed") + "#discr", I64), bv(1)))
+
+
+Q(name="e2_rtt_update_no_underflow", props=["C03"], func=r"paths\.rs:\d+:1: \d+:18>::update$",
+  allowed_panics=r"^$", assume=ru_assume,
+  functions=["RttEstimator::update (Duration +, -, *, /, abs_diff inlined down to Duration::checked_*)"], pre=ru_pre, post=lambda c, p: "true",
+  bounds="every estimator state, sample and (peer-reported) ack delay below 2^32 s: no path panics - in particular every Duration subtraction is guarded so that it cannot underflow; Duration::min and Duration::checked_{add,sub,mul,div} are opaque with their arithmetic contracts (sub is Some exactly when a >= b and then <= a; add / mul are Some for operands below 2^50 s and bounded; div by a non-zero constant is Some and <= a)",
+  replay=("path_rtt_update_native", lambda m: [dict(latest_ms=100, has_smoothed=1, smoothed_ms=100, var_ms=10, min_ms=50, ack_delay_ms=500, rtt_ms=80), dict(latest_ms=100, has_smoothed=1, smoothed_ms=100, var_ms=10, min_ms=50, ack_delay_ms=10, rtt_ms=80), dict(latest_ms=1, has_smoothed=1, smoothed_ms=1, var_ms=0, min_ms=1, ack_delay_ms=16383, rtt_ms=1), dict(latest_ms=5, has_smoothed=0, smoothed_ms=0, var_ms=0, min_ms=5, ack_delay_ms=9, rtt_ms=7)]))
